@@ -256,6 +256,8 @@ namespace T
    template< typename A > using w_opt = p::opt< A >;
    template< typename A > using w_at = p::at< A >;
    template< typename A > using w_not_at = p::not_at< A >;
+   template< typename A > using w_seq1 = p::seq< A >;  // the naming idiom  struct item : seq< ab > {};
+   template< typename A > using w_sor1 = p::sor< A >;
    template< typename A, typename B > using w_seq = p::seq< A, B >;
    template< typename A, typename B > using w_sor = p::sor< A, B >;
    template< typename A, typename B, typename C > using w_seq3 = p::seq< A, B, C >;
@@ -456,6 +458,8 @@ namespace T
    U1( NOT_AT, G_CORE, w_not_at ) \
    B2( SEQ, G_CORE, w_seq ) \
    B2( SOR, G_CORE, w_sor ) \
+   U1( SEQ1, G_CORE3, w_seq1 ) \
+   U1( SOR1, G_CORE3, w_sor1 ) \
    T3( SEQ3, G_CORE3, w_seq3 ) \
    T3( SOR3, G_CORE3, w_sor3 ) \
    B2( STAR2, G_CORE3, w_star2 ) \
